@@ -490,6 +490,8 @@ def check_bulk(chk, it, tabs, configs, rule='R05.4', only=None):
                             ('load_data', 'memcpy', 'copy')):
         if fn == 'load_data' and fn not in htu.functions:
             continue        # LOAD_DATA copies directly (checked on the template above)
+        if only is not None and not ({'memory.copy', 'memory.fill', 'memory.init'} & set(only)):
+            continue        # a caller interested in other templates only (C18: memory.grow / memory.size)
         chk.fn(fn)
         site = 'runtime/' + fn
         pn = params(fn)
